@@ -32,6 +32,7 @@ OPTSETS = [
     ("grpc+rest+retry-config", ["transport=grpc+rest", "retry-config"], None),
     ("grpc+renamed+metadata", ["transport=grpc+rest", "python-gapic-name=renamed_lib", "python-gapic-namespace=vp.other", "metadata"], None),
     ("grpc+rest+async-rest+ops", ["transport=grpc+rest", "async-rest"], ["operations"]),
+    ("rest+grpc", ["transport=rest+grpc"], None),         # the same transport set spelled REST-first
 ]
 
 
@@ -43,7 +44,7 @@ def floors(tier):
 
 
 def plan(seed, tier):
-    n = 26 if tier == "quick" else 156
+    n = 28 if tier == "quick" else 168
     cases = [{"id": f"suite-{seed}-{i}", "seed": seed * 100003 + i, "optset": i % len(OPTSETS), "kind": "conventional"} for i in range(n)]
     cases.append({"id": "suite-speech", "seed": seed, "optset": 2, "kind": "speech"})
     return cases
@@ -59,7 +60,7 @@ def build_api(case):
         if "iam" not in (mx_ or []) and "add-iam-methods" not in o_ and rng.random() < 0.45:
             iam_direct = rng.choice(["field", "rpcs"])
         api = apigen.conventional(rng, "q%d" % (case["seed"] % 100000), {"exotic": False, "ns": ["vp"], "shuffle_numbers": True,
-                                                                           "iam_direct": iam_direct})
+                                                                           "iam_direct": iam_direct, "lro_force": "async-rest" in o_})
     finally:
         apigen.NO_REP_BOOL[0] = False
     label, opts, mixins = OPTSETS[case["optset"]]
